@@ -58,6 +58,13 @@ def xml_cases(draw):
         if t["k"] == "complex" and not t.get("content"):
             for a in t["attrs"]:
                 a["use"] = "required"
+    # mixed content keeps at most one child element per inferred value type (recorded finding xml-mixed-content-children-of-one-type)
+    family = {"int": "int", "integer": "int", "gYear": "int", "decimal": "float", "double": "float"}
+    for t in S.all_types(spec) + [e["type"]["anon"] for t0 in S.all_types(spec) if t0["k"] == "complex" for e in S.local_elements(t0) if "anon" in e["type"]]:
+        if t["k"] == "complex" and t.get("mixed"):
+            kinds = [family.get(e["type"].get("b"), e["type"].get("b") or id(e)) for e in S.local_elements({"content": t["content"]}) ] if t.get("content") else []
+            if len(set(kinds)) != len(kinds):
+                t["mixed"] = False
     docs = []
     for _ in range(draw(st.integers(1, 4))):
         root = S.InstanceGen(draw, spec, canonical=True).document()
